@@ -356,6 +356,50 @@ pub fn run(ctx: &Ctx, rep: &mut Report) {
         rep.add_space("duplicate family + every card in every slot", &acc, t0, "every size, every slot pair holding the same card (each of the 52), remaining slots distinct cards; every card in every slot of an otherwise valid hand");
     }
 
+    // (3a) two-slot near-miss family: two slots simultaneously hold near-misses of their cards (each single-bit flip, each
+    //      multiples-flag combination, blank, all-ones), every slot pair of every size - covers interactions between two
+    //      corrupt words that a one-free-slot sweep cannot
+    {
+        let t0 = Instant::now();
+        let kind = monitor::kind_id("two-slot-near-miss");
+        let mut jobs = Vec::new();
+        for n in 2..=7usize {
+            for i in 0..n {
+                for j in i + 1..n {
+                    jobs.push((n, i, j));
+                }
+            }
+        }
+        let accs = par_parts(jobs.len(), |ji| {
+            let (n, i, j) = jobs[ji];
+            let mut acc = Acc::new(3);
+            let base: Vec<u32> = (0..n).map(|s| d[(s * 9 + 3 + ctx.seed as usize) % 52].word()).collect();
+            let near = |c: u32| -> Vec<u32> {
+                let mut v: Vec<u32> = (0..32).map(|k| c ^ (1 << k)).collect();
+                v.extend((1..8u32).map(|m| c | (m << 29)));
+                v.extend([0, u32::MAX, c]);
+                v
+            };
+            let (ni, nj) = (near(base[i]), near(base[j]));
+            monitor::beat(kind, &[n as u64, i as u64, j as u64]);
+            let mut w = base.clone();
+            for a in &ni {
+                for b in &nj {
+                    w[i] = *a;
+                    w[j] = *b;
+                    check_hand(&mut acc, &w, true);
+                    // and the two near-misses of the SAME card in both slots
+                    w[j] = *a;
+                    check_hand(&mut acc, &w, true);
+                }
+            }
+            acc
+        });
+        let mut acc = Acc::merged(accs);
+        acc.nontrivial = acc.hist[0] + acc.hist[2];
+        rep.add_space("two-slot near-miss family: every size, every slot pair, 42 x 42 near-misses of the two cards", &acc, t0, "single-bit flips, flag combinations, blank, all-ones and the card itself, in two slots at once");
+    }
+
     // (3b) every valid hand of five, six and seven cards (canonical order): reported valid, and validated ranking equals
     //      unvalidated ranking equals the rule-derived best-of-n ordinal
     for n in 5..=7usize {
